@@ -325,6 +325,7 @@ def process(item):
             # the real tool did not finish within the per-case limit (path explosion): not a verdict of either side
             res['status'] = 'impl-timeout'; return res
         res['shapes'] = sorted(S.shapes_of(toks))
+        O.UNKNOWN_FEE_OPERAND = 'feeUnknownOperand' in res['shapes']
         drv = driver()
         global LAST_PREMISES
         LAST_PREMISES = None
@@ -467,6 +468,7 @@ def process_c12(item):
             before = impl.render_teal(teal, cap)
             toks = [impl.enc_ins(i) for i in cap.instructions]
             res['shapes'] = sorted(S.shapes_of(toks))
+            O.UNKNOWN_FEE_OPERAND = 'feeUnknownOperand' in res['shapes']
             per_path = {}
             for order in (paths, list(reversed(paths))):
                 for pth in order:
